@@ -79,6 +79,18 @@ class Layouts:
             inner = self.step_of_call(ap) if ap[0] == "call" else None
             if inner is not None and peel(inner[1]) == CUR:
                 return ("closure", v[1], inner[0], v[2])
+            if ap[0] == "phi" and ap[1]:
+                # an arm that consumes nothing and yields an empty collection (`None => Ok((i, Vec::new()))` for an
+                # absent template) does not change which parser decodes the bytes on the other arms
+                def empty_success(m):
+                    o = peel(self.an.interp._through("ok", m))
+                    if o[0] == "tuple" and len(o[1]) == 2 and peel(o[1][0]) == CUR:
+                        x = peel(o[1][1])
+                        return x[0] == "call" and x[2] is not None and re.search(r"(Vec(<.*>)?::new|Default::default|Vec(<.*>)?::default)$", x[2].npath) is not None and not x[3]
+                    return False
+                rest = [m for m in ap[1] if not empty_success(m)]
+                if rest and len(rest) < len(ap[1]) and all(peel(m)[0] == "call" for m in rest):
+                    ap = ("phi", rest)
             if ap[0] == "phi" and ap[1] and all(peel(m)[0] == "call" for m in ap[1]):
                 # `match .. { A => P(i, x), B => P(i, y) }`: the same parser applied on every arm
                 inners = [self.step_of_call(peel(m)) for m in ap[1]]
